@@ -36,6 +36,35 @@ Qed.
 Theorem agree_every_prefix compact cs key n : increasing 0 cs -> all_agree (map_run compact (firstn n cs) m_init) key.
 Proof. intros I. apply agree_all_sequences, increasing_firstn; exact I. Qed.
 
+(* ---------- where the timestamps matter ----------
+   Without expiry commands the raft timestamp reaches the data only as the generation (ValueVersion) that
+   wait_compact gives a collection created while no meta key exists (prepareCollKeyForWrite / renewOnExpired).
+   Under local_deletion the Map model does not look at it at all: *)
+Lemma map_step_local_ts ts ts' c s : map_step false ts c s = map_step false ts' c s.
+Proof.
+  destruct c; reflexivity.
+Qed.
+
+Fixpoint renum (n : Z) (cs : list (Z * cmd)) : list (Z * cmd) :=
+  match cs with [] => [] | (_, c) :: r => (n, c) :: renum (n + 1) r end.
+Lemma renum_increasing cs : forall n, increasing (n - 1) (renum n cs).
+Proof. induction cs as [|[t c] r IH]; intros n; cbn; [exact I|]. split; [lia|]. replace n with (n + 1 - 1) at 1 by lia. apply IH. Qed.
+Lemma renum_length cs : forall n, length (renum n cs) = length cs.
+Proof. induction cs as [|[t c] r IH]; intros n; cbn; [reflexivity|]. rewrite IH; reflexivity. Qed.
+Lemma renum_map_run cs : forall n s, map_run false (renum n cs) s = map_run false cs s.
+Proof.
+  induction cs as [|[t c] r IH]; intros n s; cbn [renum map_run fold_left fst snd]; [reflexivity|].
+  rewrite (map_step_local_ts n t c s). apply IH.
+Qed.
+
+
+Theorem rep_local_any_timestamps cs : exists clock, RepS false clock (map_run false cs m_init).
+Proof.
+  exists (last_ts 0 (renum 1 cs)). rewrite <- (renum_map_run cs 1). apply rep_all_sequences. apply (renum_increasing cs 1).
+Qed.
+Theorem agree_local_any_timestamps cs key : all_agree (map_run false cs m_init) key.
+Proof. destruct (rep_local_any_timestamps cs) as [clock R]. eapply reps_all_agree; exact R. Qed.
+
 (* ---------- the pre-fix definitions break it (vm_compute witnesses; inputs of corpus/C09) ---------- *)
 Local Open Scope N_scope.
 Definition k_ts : bytes := [116; 58; 115].   (* "t:s" *)
@@ -99,4 +128,12 @@ Proof. vm_compute. split; reflexivity. Qed.
 Lemma ltrim_fixed_ok :
   let l := fst (lstep false 2 k_ts (LCtrim (-3) (-3)) (fst (lstep false 1 k_ts (LCpush true [b_a]) empty_lcoll))) in
   lquery k_ts LQlen l = RInt 0 /\ lquery k_ts (LQrange 0 (-1)) l = RArr [].
+Proof. vm_compute. split; reflexivity. Qed.
+
+(* under wait_compact EQUAL timestamps break the agreement (open finding of C10: generation = ts collision) *)
+Definition equal_ts_hash : list (Z * cmd) :=
+  [ (5, CHset true k_ts b_a b_1); (5, CHclear k_ts); (5, CHset true k_ts b_b b_1) ].
+Lemma equal_ts_breaks_agree :
+  let c := alook empty_coll k_ts (m_hash (map_run true equal_ts_hash m_init)) in
+  hlen k_ts c = RInt 1 /\ hkeys k_ts c = rbulks [b_a; b_b].
 Proof. vm_compute. split; reflexivity. Qed.
